@@ -1,7 +1,7 @@
 (* C29 — proofs about Model/Glob.v: the backtracking matcher is sound and complete for the
    declarative glob relation, returns the leftmost-lazy groups, the route search returns the first
-   matching pattern, $k substitution of the spec is simultaneous, and the two implementation
-   deviations are confined to their triggers. *)
+   matching pattern, $k substitution is simultaneous; today's code (impl_) coincides with the spec
+   (fixes 0f43e55, 23c72fc); the PRE-FIX variants (old_) deviate exactly on their triggers. *)
 From Coq Require Import List NArith Bool Arith Lia.
 From Verif Require Import Base.Text Model.Glob.
 Import ListNotations.
@@ -191,7 +191,7 @@ Section MatchProofs.
   Qed.
 End MatchProofs.
 
-(* ---------- the line-feed deviation is confined to hosts with a line feed ---------- *)
+(* ---------- PRE-FIX matcher: the line-feed deviation is confined to hosts with a line feed ---------- *)
 
 Lemma star_try_ext dotA dotB rest h :
   (forall c, In c h -> dotA c = dotB c) ->
@@ -241,26 +241,33 @@ Proof.
   end; lia.
 Qed.
 
-Theorem impl_match_eq_spec_off_trigger : forall s pattern,
-  has_lf s = false -> match_bytes impl_dot s pattern = match_bytes spec_dot s pattern.
+Theorem old_match_eq_spec_off_trigger : forall s pattern,
+  has_lf s = false -> match_bytes old_dot s pattern = match_bytes spec_dot s pattern.
 Proof.
   intros s pattern H. unfold match_bytes. f_equal. apply glob_match_ext.
-  intros c Hc. unfold impl_dot, spec_dot. apply negb_true_iff, N.eqb_neq. intro E. subst c.
+  intros c Hc. unfold old_dot, spec_dot. apply negb_true_iff, N.eqb_neq. intro E. subst c.
   unfold lower_cps in Hc. apply in_map_iff in Hc. destruct Hc as [y [Hy Hin]].
   apply lower_cp_lf in Hy. subst y.
   unfold has_lf in H. assert (existsb (fun c => c =? 10) (utf8_decode s) = true); [|congruence].
   apply existsb_exists. exists 10. split; [assumption|reflexivity].
 Qed.
 
-(* the deviation is real: the probe input, evaluated *)
+(* the pre-fix deviation was real: the probe input, evaluated; today's matcher is the spec's *)
 Definition host_lf : list N := [97; 10; 98; 46; 101; 120].       (* "a\nb.ex" *)
 Definition pat_lf : list N := [42; 46; 101; 120].                (* "*.ex" *)
 
-Lemma impl_match_refuted :
+Lemma old_match_refuted :
   has_lf host_lf = true
-  /\ match_bytes impl_dot host_lf pat_lf = None
+  /\ match_bytes old_dot host_lf pat_lf = None
   /\ match_bytes spec_dot host_lf pat_lf = Some [[97; 10; 98]].
 Proof. vm_compute. repeat split; reflexivity. Qed.
+
+Theorem match_impl_is_spec : forall s pattern,
+  match_bytes impl_dot s pattern = match_bytes spec_dot s pattern.
+Proof. reflexivity. Qed.
+
+Lemma impl_match_probe : match_bytes impl_dot host_lf pat_lf = Some [[97; 10; 98]].
+Proof. vm_compute. reflexivity. Qed.
 
 (* ---------- first route ---------- *)
 
@@ -464,16 +471,16 @@ Example subst_simultaneous_example :
 Proof. cbv zeta. split; [|split]; [|reflexivity|vm_compute; reflexivity].
   simpl. repeat split; try reflexivity; intros; try discriminate. Qed.
 
-(* the implementation's sequential ReplaceAll is not simultaneous: both recorded inputs *)
-Lemma impl_subst_refuted :
+(* the PRE-FIX sequential ReplaceAll was not simultaneous: both recorded inputs *)
+Lemma old_subst_refuted :
   (let t := [36; 50] in let gs := [[120]; [36; 49]] in          (* "$2", ["x"; "$1"] *)
-   rescans t gs = true /\ impl_subst t gs = [120] /\ spec_subst t gs = [36; 49])
+   rescans t gs = true /\ old_subst t gs = [120] /\ spec_subst t gs = [36; 49])
   /\
   (let t := [104; 36; 49; 57] in let gs := [[120]; [121]] in    (* "h$19", ["x"; "y"] *)
-   ref_then_digit 2 t = true /\ impl_subst t gs = [104; 120; 57] /\ spec_subst t gs = t).
+   ref_then_digit 2 t = true /\ old_subst t gs = [104; 120; 57] /\ spec_subst t gs = t).
 Proof. vm_compute. repeat split; reflexivity. Qed.
 
-(* Off both triggers the two substitutions agree - checked exhaustively (not proved in general)
+(* Off both triggers the PRE-FIX and the simultaneous substitution agree - checked exhaustively (not proved in general)
    for every template of length <= 5 over {"$","1","2","a"} against six group lists. *)
 Fixpoint words (syms : list N) (k : nat) : list (list N) :=
   match k with
@@ -483,13 +490,78 @@ Fixpoint words (syms : list N) (k : nat) : list (list N) :=
 
 Definition off_trigger_agree (t : list N) (gs : list (list N)) : bool :=
   ref_then_digit (N.of_nat (length gs)) t || rescans t gs
-  || (if list_eq_dec N.eq_dec (impl_subst t gs) (spec_subst t gs) then true else false).
+  || (if list_eq_dec N.eq_dec (old_subst t gs) (spec_subst t gs) then true else false).
 
-Example impl_subst_eq_spec_off_trigger_bounded :
+Example old_subst_eq_spec_off_trigger_bounded :
   forallb (fun t => forallb (off_trigger_agree t)
      [[]; [[120]]; [[120]; [121]]; [[49]; [36]]; [[36; 49]; [50]]; [[]; [49; 36]; [120]]])
      (words [36; 49; 50; 97] 5) = true.
 Proof. vm_compute. reflexivity. Qed.
+
+(* ---------- today's substitution is the spec's ---------- *)
+
+Definition dstep (a d : N) : N := a * 10 + (d - 48).
+
+Lemma digits_value_fold ds : digits_value ds = fold_left dstep ds 0.
+Proof. reflexivity. Qed.
+
+Lemma fold_dstep_ge : forall ds acc, acc * 10 ^ N.of_nat (length ds) <= fold_left dstep ds acc.
+Proof.
+  induction ds as [|d r IH]; intro acc.
+  - simpl. lia.
+  - cbn [fold_left length]. rewrite Nat2N.inj_succ, N.pow_succ_r'.
+    specialize (IH (dstep acc d)). unfold dstep in IH at 1.
+    assert (acc * (10 * 10 ^ N.of_nat (length r)) <= (acc * 10 + (d - 48)) * 10 ^ N.of_nat (length r)) by nia.
+    lia.
+Qed.
+
+(* a run of ten or more digits without a leading zero is at least 10^9 *)
+Lemma valid_index_short n ds :
+  n < 1000000000 -> forallb is_digit ds = true -> valid_index n ds = true -> (length ds <= 9)%nat.
+Proof.
+  intros Hn Hd Hv. destruct ds as [|d r]; [simpl; lia|].
+  unfold valid_index in Hv. apply andb_true_iff in Hv. destruct Hv as [Hz Hle].
+  apply negb_true_iff, N.eqb_neq in Hz. apply N.leb_le in Hle.
+  simpl in Hd. apply andb_true_iff in Hd. destruct Hd as [Hd _].
+  unfold is_digit in Hd. apply andb_true_iff in Hd. destruct Hd as [Hd1 _]. apply N.leb_le in Hd1.
+  destruct (le_lt_dec (length (d :: r)) 9) as [|Hlong]; [assumption|]. exfalso.
+  rewrite digits_value_fold in Hle. cbn [fold_left] in Hle.
+  pose proof (fold_dstep_ge r (dstep 0 d)) as Hge. unfold dstep in Hge at 1.
+  assert (H9 : 10 ^ 9 <= 10 ^ N.of_nat (length r)).
+  { apply N.pow_le_mono_r; [lia|]. simpl in Hlong. lia. }
+  change (10 ^ 9) with 1000000000 in H9.
+  assert (1 <= 0 * 10 + (d - 48)) by lia. nia.
+Qed.
+
+Lemma impl_parse_is_parse n : n < 1000000000 -> forall t, impl_parse n t = parse n t.
+Proof.
+  intros Hn. induction t as [|c r IH]; [reflexivity|]. simpl. rewrite IH.
+  destruct (c =? dollar); [|reflexivity].
+  assert (E : impl_valid_index n (lead_digits r) = valid_index n (lead_digits r)).
+  { unfold impl_valid_index. destruct (valid_index n (lead_digits r)) eqn:Ev; [|apply andb_false_r].
+    rewrite andb_true_r. apply Nat.leb_le.
+    apply (valid_index_short n _ Hn (lead_digits_all r) Ev). }
+  now rewrite E.
+Qed.
+
+(* substituteBackendParams of today's code = the simultaneous substitution of the property
+   (for fewer than 10^9 groups; paramIndex refuses digit runs longer than nine) *)
+Theorem subst_impl_is_spec : forall t gs,
+  N.of_nat (length gs) < 1000000000 -> impl_subst t gs = spec_subst t gs.
+Proof. intros t gs H. unfold impl_subst, spec_subst. now rewrite (impl_parse_is_parse _ H). Qed.
+
+Corollary impl_subst_simultaneous : forall gs ts,
+  N.of_nat (length gs) < 1000000000 ->
+  canonical (N.of_nat (length gs)) ts ->
+  impl_subst (render ts) gs = flat_map (expand gs) ts.
+Proof. intros gs ts Hn Hc. rewrite (subst_impl_is_spec _ _ Hn). now apply subst_simultaneous. Qed.
+
+(* today's code on the two inputs on which the pre-fix code failed *)
+Lemma impl_subst_probes :
+  impl_subst [36; 50] [[120]; [36; 49]] = [36; 49]
+  /\ impl_subst [104; 36; 49; 57] [[120]; [121]] = [104; 36; 49; 57]
+  /\ impl_subst [36; 49] [] = [36; 49].
+Proof. vm_compute. repeat split; reflexivity. Qed.
 
 (* ---------- host cleaning ---------- *)
 
